@@ -13,7 +13,8 @@ MANIFEST = dict(
          "the loop of helpers._worker and the monitor/tail of parallel_add: pm_total (the rounds end), pm_tree (for ANY merge the "
          "result is a binary merge tree whose leaves are the worker sketches, each exactly once, in order), pm_fold, pm_measure; "
          "for every schedule (every assignment of items to n >= 1 workers with every per-worker order): C08_hll (registers of the "
-         "merged HyperLogLog = registers of the sequential sketch, via C02's set-only theorem), C08_inherits/C08_sandwich (the linear "
+         "merged HyperLogLog = registers of the sequential sketch, via C02's set-only theorem), C08_hh_* (heavy hitters: C03/C04 hold "
+         "w.r.t. the whole stream), C08_inherits/C08_sandwich (the linear "
          "count-min result is eval of a merge tree whose adds are exactly the items' adds, so C01's bounds hold w.r.t. the whole "
          "stream), C08_nadded, C08_nrecords. Tied to the code by driving the REAL _worker/_merge_worker/parallel_merging/parallel_add "
          "under a synchronous process context over completely enumerated schedule spaces and comparing states and merge order with "
@@ -22,8 +23,9 @@ MANIFEST = dict(
     note="Trusted: Coq kernel + vm_compute; the hand transcription Merging.v (validated by the merge-tree correspondence run); "
          "Hll.v/CmsLinear.v (C02/C01); harness/syncctx.py (a deque-backed stand-in for multiprocessing used only in the harness "
          "process). Not proved, assumed and observed only: multiprocessing.Queue hands every item to exactly one worker and one "
-         "pill to each, process spawn, shared-memory attachment across processes, OS scheduling. The heavy-hitter instance of "
-         "C08_inherits is not stated in Coq (same statement over HH.v); heavy hitters are checked on the implementation only. "
+         "pill to each, process spawn, shared-memory attachment across processes, OS scheduling. Heavy hitters: C08_hh_inherits "
+         "(the result is eval of an HH.v merge tree whose leaves are a permutation of the stream's adds), C08_hh_no_overcount "
+         "(C03 w.r.t. the stream), C08_hh_majority (C04 w.r.t. the stream), C08_hh_nadded; HH.v is trusted as validated by C03/C04. "
          "Known finding F2 (generator items cannot be pickled under spawn) is probed on every run. Theorems closed under the "
          "global context (no axioms).",
     technique="Coq proof (merge-tree + schedule theorems) + enumerated-schedule correspondence against the real worker/merge code "
@@ -108,7 +110,7 @@ def run(ctx):
 
     # ---- collect the real runs
     f2 = None
-    real_cases = {"cms": [], "hll": []}
+    real_cases = {"cms": [], "hll": [], "hh": []}
     for tag, h, r in RR.results():
         ctx.tick(f"real run {tag} finished after {r.get('wall')}s")
         if tag == "f2":
@@ -121,8 +123,10 @@ def run(ctx):
                     real_cases["cms"].append((real_items, sched, fin["cms"]))
                 if "hll" in fin:
                     real_cases["hll"].append((real_items, sched, fin["hll"]))
+                if "hh" in fin:
+                    real_cases["hh"].append((real_items, sched, fin["hh"]))
     # the model on the schedules the real runs actually had (final state only)
-    if real_cases["cms"] or real_cases["hll"]:
+    if real_cases["cms"] or real_cases["hll"] or real_cases["hh"]:
         S.run_model_real(real_items, real_cases)
 
     # ---- known finding F2
@@ -177,7 +181,8 @@ def run(ctx):
         "Predicate on the implementation: HLL registers == sequential sketch; n_added == total multiplicity; n_records == sum of callback "
         "returns (also per worker); C01 sandwich w.r.t. the whole stream (bucket map observed on a probe); hh[k] <= true count and "
         "reported counts in (0, true]; merge order == ((01)(23))4-style tree with every worker sketch used once. Model: the same cases "
-        "evaluated by Merging.v inside Coq (complete count-min state of every worker and of the result, HLL registers, tree shape, "
+        "evaluated by Merging.v / MergingHH.v inside Coq (complete count-min state and complete heavy-hitter table, n_added, n_records "
+        "of every worker and of the result, hh[k] over the alphabet and query(k, 1) of the result, HLL registers, tree shape, "
         f"rounds, mergers per round, monitor outcome). Real spawned parallel_add runs: n_workers in {real_ns}, schedule observed through "
         "the callback's (pid, item) side channel, model evaluated on the observed schedule; F2 probe. distinct = distinct (suite, "
         "combination, items, schedule); non-trivial = at least 2 workers.")
